@@ -715,6 +715,18 @@ func (g *FnGen) appendBuiltin(v ssa.Value, c *ssa.CallCommon) Val {
 			}
 		}
 	}
+	// t = x[:c] (or x[0:c]) with a constant c: exactly c elements (the slice bounds check has already been emitted)
+	if sl, ok := c.Args[1].(*ssa.Slice); ok && constN < 0 && sl.High != nil && sl.Max == nil {
+		if hc, ok := sl.High.(*ssa.Const); ok && hc.Value != nil {
+			lowZero := sl.Low == nil
+			if lc, ok := sl.Low.(*ssa.Const); ok && lc.Value != nil && lc.Int64() == 0 {
+				lowZero = true
+			}
+			if _, isSl := sl.X.Type().Underlying().(*types.Slice); isSl && lowZero && hc.Int64() >= 0 && hc.Int64() <= unrollAppend {
+				constN = int(hc.Int64())
+			}
+		}
+	}
 	newlen := g.add(slen(s.T), n)
 	inplace := g.sle(newlen, scap(s.T))
 	ref := g.allocRef(g.cur)
@@ -745,8 +757,14 @@ func (g *FnGen) appendBuiltin(v ssa.Value, c *ssa.CallCommon) Val {
 	} else {
 		g.assume(fmt.Sprintf("(forall ((%s %s)) (! (=> (and %s %s) (= (select %s %s) %s)) :pattern ((select %s %s))))",
 			k, idx, g.sle(abase, k), g.slt(k, g.add(abase, n)), row, k, readT(g.sub(k, abase)), row, k))
-		if !tIsStr {
-			// triggered from reads of the appended slice (m = index into t's backing array)
+		// the first few appended elements as ground facts (length prefixes and headers are read at constant offsets)
+		for j := 0; j < 9; j++ {
+			kj := g.ilit64(int64(j))
+			g.assume(fmt.Sprintf("(=> %s (= (select %s %s) %s))", g.slt(kj, n), row, g.add(abase, kj), readT(kj)))
+		}
+		if !tIsStr && g.mode == "int" {
+			// triggered from reads of the appended slice (m = index into t's backing array); int mode only: with bit-vector
+			// index arithmetic this axiom and the previous one re-trigger each other (matching loop)
 			trow := fmt.Sprintf("(select %s %s)", h, sref(t.T))
 			g.assume(fmt.Sprintf("(forall ((%s %s)) (! (=> (and %s %s) (= (select %s %s) (select %s %s))) :pattern ((select %s %s))))",
 				k, idx, g.sle(soff(t.T), k), g.slt(k, g.add(soff(t.T), n)), row, g.add(g.sub(k, soff(t.T)), abase), trow, k, trow, k))
